@@ -2,6 +2,7 @@ pub mod c01;
 pub mod c04;
 pub mod c05;
 pub mod c06;
+pub mod c10;
 pub mod c11;
 pub mod c12;
 pub mod c13;
@@ -42,6 +43,7 @@ pub fn run(a: &Args) -> Result<ShardOut, String> {
         "C07" => Ok(worldmon::run_c07(a)),
         "C08" => Ok(worldmon::run_c08(a)),
         "C09" => Ok(worldmon::run_c09(a)),
+        "C10" => Ok(c10::run(a)),
         "C11" => Ok(c11::run(a)),
         "C12" => Ok(c12::run(a)),
         "C13" => Ok(c13::run(a)),
